@@ -166,7 +166,7 @@ class Image(SpanToken):
             # taken from a link reference definition, where they were unescaped already
             self.src, self.title = match.group(2), match.group(3)
         else:
-            self.src = EscapeSequence.strip(match.group(2).strip())
+            self.src = EscapeSequence.strip(match.group(2))
             self.title = EscapeSequence.strip(match.group(3))
         self.label = getattr(match, "label", None)
         self.title_delimiter = getattr(match, "title_delimiter", None)
@@ -191,7 +191,7 @@ class Link(SpanToken):
             # taken from a link reference definition, where they were unescaped already
             self.target, self.title = match.group(2), match.group(3)
         else:
-            self.target = EscapeSequence.strip(match.group(2).strip())
+            self.target = EscapeSequence.strip(match.group(2))
             self.title = EscapeSequence.strip(match.group(3))
         self.label = getattr(match, "label", None)
         self.title_delimiter = getattr(match, "title_delimiter", None)
